@@ -295,8 +295,10 @@ Proof.
     + (* from_slice *)
       destruct Hwf as [k Hk].
       assert (Hal : 0 < e_align T) by (rewrite Hk; pose proof (pow2_ge1 k); lia).
-      destruct (N.leb_spec (offset + count) (vs_size s)) as [Hin|Hin].
-      2:{ split; [discriminate|intros [(X & _) _]; lia]. }
+      destruct (N.leb_spec (offset + count) (vs_size s)) as [Hin|Hin]; cbn [andb].
+      2:{ split; [discriminate|intros [((X & _) & _) _]; lia]. }
+      destruct (N.leb_spec count ISZ_MAX) as [Hic|Hic].
+      2:{ split; [discriminate|intros [((_ & X) & _) _]; lia]. }
       rewrite bv_from_slice_eq by exact Hal.
       destruct (N.eqb_spec count (e_size T)) as [Hc|Hc]; cbn [andb negb].
       2:{ split; [discriminate|intros [(_ & X & _) _]; contradiction]. }
